@@ -202,7 +202,10 @@ def run(ctx):
                 "observations_order_independent", "restart_changes_nothing", "iterators_agree_with_counters",
                 "resolve_answers_satisfy_filters", "deactivation_is_permanent", "covering_update_resolves_any_order",
                 "history_is_the_sorted_event_list",
-                "fact_map_built_fields_sorted", "fact_writer_has_no_map_range", "fact_conflicted_flag_read_unconditionally"]
+                "fact_map_built_fields_sorted", "fact_writer_has_no_map_range", "fact_conflicted_flag_read_unconditionally",
+                "fact_before_order", "fact_equal_by_ref", "fact_event_fields_persisted", "fact_metadata_fields_persisted",
+                "fact_store_in_memory_state", "fact_cache_touch", "fact_version_keys", "fact_copied_conditions",
+                "fact_modelled_source_unchanged"]
     for r in required:
         if not any(t.endswith("Props." + r) for t in thms):
             ctx.oblige("thm-present:" + r, False, "theorem missing or its module does not build")
